@@ -82,7 +82,7 @@ Proof.
 Qed.
 
 Lemma vls_bound f l rs fresh v vl :
-  f < nf fb -> l < nlevels fb f -> Forall (fun r => fst r < T fb /\ snd r <= T fb) rs -> (GZ < fresh)%Z ->
+  isact fb f = true -> l < nlevels fb f -> Forall (fun r => fst r < T fb /\ snd r <= T fb) rs -> (GZ < fresh)%Z ->
   In vl (vls_of f l rs) -> In v vl -> (Z.of_nat v <> 0 /\ Z.abs (Z.of_nat v) < fresh)%Z.
 Proof.
   intros Hf Hl Hb Hfr Hvl Hv. apply in_map_iff in Hvl. destruct Hvl as (r & <- & Hr).
@@ -92,10 +92,10 @@ Proof.
 Qed.
 
 Lemma guard_inarow k f l wb :
-  ((0 <? k) && (f <? length (fl_design fb)) && (l <? nlevels fb f) && geom_ok fb wb)%bool = true ->
-  0 < k /\ f < nf fb /\ l < nlevels fb f /\ exists rs, map_block_trial_ranges fb wb = Some rs.
+  ((0 <? k) && isact fb f && (l <? nlevels fb f) && geom_ok fb wb)%bool = true ->
+  0 < k /\ isact fb f = true /\ l < nlevels fb f /\ exists rs, map_block_trial_ranges fb wb = Some rs.
 Proof.
-  rewrite !andb_true_iff. intros [[[A B] C] D]. apply Nat.ltb_lt in A, B, C.
+  rewrite !andb_true_iff. intros [[[A B] C] D]. apply Nat.ltb_lt in A, C.
   repeat split; try assumption. now apply geom_ok_some.
 Qed.
 
